@@ -1315,7 +1315,10 @@ class _AlwaysSortable(object):
         self.value = value
 
     def sortable_value(self):
-        return (str(type(self)), id(self))
+        # Fallback order for values that cannot be compared: by the type and
+        # identity of the wrapped value (not of this temporary wrapper, whose
+        # address depends on whatever was allocated before).
+        return (str(type(self.value)), id(self.value))
 
     def __lt__(self, other):
         try:
